@@ -308,3 +308,11 @@ func Thorough() bool { return os.Getenv("VERIF_TIER") == "thorough" }
 // RandPromoteBudget bounds how often in a row the skip list's coin flip
 // (rand.Int()%4 == 0) may come up "promote"; symbolic engine only. INTERCEPTED.
 func RandPromoteBudget(k int) {}
+
+// Note records free text with the path (shown with a counterexample). INTERCEPTED.
+func Note(s string) {
+	mu.Lock()
+	Traces = append(Traces, "note:"+s)
+	mu.Unlock()
+	fmt.Println("VRT-NOTE " + s)
+}
